@@ -869,15 +869,16 @@ func (lc *layerC) run(sc cScenario) {
 			for _, e := range entries {
 				if e.From >= 0 {
 					x := e.From
-					// informational: RFC 5880 6.8.7 - the gap to the previous packet should not exceed the
-					// interval that packet promised (max of its Desired Min TX and the peer's Required Min RX)
-					if lp := lastSent[x]; lp != nil {
+					// informational, deliver-all epochs only: RFC 5880 6.8.7 - the gap to the previous packet
+					// should not exceed the interval that packet promised (max of its Desired Min TX and the
+					// peer's Required Min RX)
+					if lp := lastSent[x]; lp != nil && epoch >= 0 && sc.epochs[epoch] == mAll {
 						prom := time.Duration(lp.P.DesiredTx) * time.Microsecond
 						if sc.cfgs[1-x].Required > prom {
 							prom = sc.cfgs[1-x].Required
 						}
 						if gap := e.T - lp.T; gap > prom {
-							lc.cnt.add("info:tx-gap-longer-than-advertised-interval:"+lp.P.State.String()+"->"+e.P.State.String(), 1)
+							lc.cnt.add("info:deliver-all-epoch:tx-gap-longer-than-advertised-interval:"+lp.P.State.String()+"->"+e.P.State.String(), 1)
 							lc.gap(float64(gap)/float64(prom), map[string]any{"gap": gap.String(), "promised": prom.String(),
 								"previous_packet": fmt.Sprintf("%v %v tx=%dus", lp.T, lp.P.State, lp.P.DesiredTx),
 								"packet": fmt.Sprintf("%v %v", e.T, e.P.State), "session": sc.cfgs[x].Name, "scenario": sc.name})
@@ -1064,13 +1065,18 @@ func TestC16(t *testing.T) {
 	core := coreEvents()
 	all := append(append([]ev{}, core...), discardEvents()...)
 	bStates := 0
+	t0 := time.Now()
 	for _, c := range cfgs {
 		lb := &layerB{t: t, r: r, cfg: c, col: col, cnt: cnt}
-		st := mc.BFS(lb.space(core, mc.Pick(4, 6), true))
+		d1, d2 := mc.Pick(5, 6), mc.Pick(3, 4)
+		if mc.Thorough() && c.Name == "learn" {
+			d1, d2 = 7, 5
+		}
+		st := mc.BFS(lb.space(core, d1, true))
 		r.Report(st)
 		r.Extra["b_core_"+c.Name] = fmt.Sprintf("events=%d depth=%d states=%d transitions=%d merge_checks=%d complete=%v",
 			len(core), st.Depth, st.States, st.Transitions, st.MergeChecks, st.Complete)
-		st2 := mc.BFS(lb.space(all, mc.Pick(3, 4), false))
+		st2 := mc.BFS(lb.space(all, d2, false))
 		r.Report(st2)
 		r.Extra["b_full_"+c.Name] = fmt.Sprintf("events=%d depth=%d states=%d transitions=%d complete=%v",
 			len(all), st2.Depth, st2.States, st2.Transitions, st2.Complete)
@@ -1078,6 +1084,8 @@ func TestC16(t *testing.T) {
 		lb.ties()
 	}
 	r.Extra["b_states_probed_for_recovery"] = bStates
+	r.Extra["wall_layer_b_s"] = time.Since(t0).Seconds()
+	t0 = time.Now()
 
 	// ---- layer (c)
 	lc := &layerC{t: t, r: r, col: col, cnt: cnt, states: map[string]bool{}, trans: map[string]bool{}}
@@ -1112,7 +1120,7 @@ func TestC16(t *testing.T) {
 			names = append(names, "deliver-all")
 			scs = append(scs, cScenario{cfgs: pr, epochs: eps, name: "epochs[" + strings.Join(names, " ") + "]"})
 		}
-		k := mc.Pick(5, 7)
+		k := mc.Pick(5, 8)
 		for _, warm := range []bool{false, true} {
 			for ma := uint32(0); ma < 1<<uint(k); ma++ {
 				for mb := uint32(0); mb < 1<<uint(k); mb++ {
@@ -1150,11 +1158,12 @@ func TestC16(t *testing.T) {
 	sort.Strings(tr)
 	r.Extra["c_epoch_graph"] = tr
 	r.Extra["c_scenarios"] = len(scs)
+	r.Extra["wall_layer_c_s"] = time.Since(t0).Seconds()
 	if lc.worstLateEx != nil {
 		r.Extra["info_slowest_convergence_on_delivering_link"] = lc.worstLateEx
 	}
 	if lc.worstGapEx != nil {
-		r.Extra["info_worst_tx_gap_vs_advertised_interval"] = lc.worstGapEx
+		r.Extra["info_worst_tx_gap_vs_advertised_interval_on_delivering_link"] = lc.worstGapEx
 	}
 
 	col.flush(r)
